@@ -163,13 +163,14 @@ def _expand_stmts(stmts, table, depth, stack):
     return out
 
 
-def expand(model, ref, depth=2):
-    """copy of the function `rel::Qual.name` with helper calls expanded (see module docstring)"""
+def expand(model, ref, depth=2, exclude=()):
+    """copy of the function `rel::Qual.name` with helper calls expanded (see module docstring); `exclude`: names of helpers
+    that carry meaning for the rule and must stay calls"""
     rel, qual = ref.split("::")
     fn = model.func(ref)
     cls = qual.split(".")[0] if "." in qual else None
     table = _callee_table(model, rel, cls)
-    table = {k: v for k, v in table.items() if v is not fn}
+    table = {k: v for k, v in table.items() if v is not fn and v.name not in exclude}
     new = copy.copy(fn)
     new.body = _expand_stmts(list(fn.body), table, depth, frozenset({fn.name}))
     ast.fix_missing_locations(new)
@@ -178,7 +179,7 @@ def expand(model, ref, depth=2):
 
 # ---------------------------------------------------------------------------------------------- copy propagation
 
-_PURE_CALLS = {"len"}
+_PURE_CALLS = {"len", "range", "min", "max", "abs"}
 
 
 def _pure(e):
